@@ -49,8 +49,8 @@ PROPS["C12"] = dict(
     level_text="Generated value trees over every RESP3/RESP2 type and encoding variant, decoded under generated read splits and buffer sizes and compared with the generated tree; streaming reads compared with what a normal read returns. Sampled, deep (thousands to millions of trees).",
     level_note="The harness encoder (kit/resp) is trusted to produce well-formed RESP; it is itself round-trip tested against its own decoder. " + LIMITS,
     units=[
-        U("inpkg", "rueidis", "TestVerif_C12_Decode", T(8000), T(100000, shards=16), fuzz=[dict(target="FuzzVerif_C13_Decode", seconds=240)]),
-        U("inpkg", "rueidis", "TestVerif_C12_Stream", T(8000), T(100000, shards=16)),
+        U("inpkg", "rueidis", "TestVerif_C12_Decode", T(8000), T(30000, shards=16, timeout=1500), fuzz=[dict(target="FuzzVerif_C13_Decode", seconds=240)]),
+        U("inpkg", "rueidis", "TestVerif_C12_Stream", T(8000), T(30000, shards=16, timeout=1500)),
     ],
 )
 
@@ -60,7 +60,7 @@ PROPS["C13"] = dict(
     level_text="Generated and mutated byte strings decoded by both decoders (normal and streaming) under an allocation budget proportional to the input; a process crash (fatal out-of-memory) is reported as a violation with the saved input.",
     level_note="Allocation is measured as TotalAlloc delta of the single-threaded test and compared with 64x input length + 1 MiB; " + LIMITS,
     units=[
-        U("inpkg", "rueidis", "TestVerif_C13_Malformed", T(20000), T(200000, shards=16), crash_is_violation=True, mem_gb=4, fuzz=[dict(target="FuzzVerif_C13_Decode", seconds=300)]),
+        U("inpkg", "rueidis", "TestVerif_C13_Malformed", T(20000), T(50000, shards=16, timeout=1500), crash_is_violation=True, mem_gb=4, fuzz=[dict(target="FuzzVerif_C13_Decode", seconds=300)]),
     ],
 )
 
@@ -323,7 +323,7 @@ PROPS["C35"] = dict(
     level="exploration",
     technique="property-based testing (rapid): generated configurations over the accepted (n, rate) domain x generated add/query/reset histories through the public API against a fake Redis that runs the filter's real Lua scripts (mini Lua interpreter) inside a testing/synctest bubble; oracle = model set of added items + positional agreement of ExistsMulti with Exists + monotonic Count",
     level_text="Configurations from n=1..10^6 and rates from 10^-300 up to 1-10^-15 (with and without the read-only Exists script), histories of up to 30 Add/AddMulti/Exists/ExistsMulti/Count/Reset/Delete calls over pools of up to 50 items (empty, binary, long); every item of the model set must be reported present by Exists and at its position of ExistsMulti.",
-    level_note="Bitmaps are capped at 2^22 bits (the fake, like Redis, materialises the bitmap); larger accepted sizes up to 2^32 bits are not exercised. The mini Lua interpreter and the fake's BITFIELD are trusted (unit-tested in kit). " + LIMITS,
+    level_note="Bitmaps up to the accepted maximum of 2^32 bits; the fake keeps bitmaps above 64 KiB sparse (kit/fakeredis/sparsebits.go, unit-tested differentially against the dense code). The mini Lua interpreter and the fake's BITFIELD are trusted (unit-tested in kit). " + LIMITS,
     units=[U("harness", "props", "TestVerif_C35_Bloom", T(800, timeout=300), T(3000, shards=16, timeout=1500))],
 )
 
@@ -363,7 +363,7 @@ PROPS["C37"] = dict(
     level="exploration",
     technique="property-based testing (rapid): generated timed add/query histories in a testing/synctest bubble (virtual clock shared by the client, the fake server's TIME and its key expiry) against a fake Redis that runs the filter's real Lua scripts; oracle = every item is present at every query within half a window (minus 2 ms) of its latest successful add",
     level_text="Windows of 1-60 s including odd millisecond counts, gaps aimed at both sides of the rotation instants (a few ms before and after the rotation lock expires) and at the limit of the guaranteed half window; rotations between the add and the query are observed through the value of the last-rotation key.",
-    level_note="One client, instantaneous calls (no server latency: the scripts take their time from the server, so latency only shifts the instants). Reset's reply (rueidis.Nil on success) and the failing first call after Delete are outside the property and tolerated. Bitmaps up to 2^16 bits, at most 64 hash functions. " + LIMITS,
+    level_note="Windows with fractional seconds and sub-millisecond parts are generated; half of the plans are steady traffic so that the filter rotates as early as it can. One client, instantaneous calls (no server latency: the scripts take their time from the server, so latency only shifts the instants). Reset's reply (rueidis.Nil on success) and the failing first call after Delete are outside the property and tolerated. Bitmaps up to 2^16 bits, at most 64 hash functions. " + LIMITS,
     units=[U("harness", "props", "TestVerif_C37_SlidingBloom", T(800, timeout=300), T(3000, shards=16, timeout=1500))],
 )
 
@@ -379,7 +379,7 @@ PROPS["C38"] = dict(
     level="exploration",
     technique="property-based testing (rapid): generated schedules of concurrent Allow/AllowN/Check callers at exact virtual instants in a testing/synctest bubble against a fake Redis that runs the limiter's real Lua script; oracle = admitted-units bound per (identifier, ResetAtMs) + reference model of the window/counter semantics run over the server's serial execution order + metamorphic run without the Check calls",
     level_text="1-6 callers x 1-8 calls on 1-2 identifiers, limits 1-20, windows 1-5 s, instants exactly on and 1 ms around window ends and callers coinciding at one instant; the server log orders the script executions, the model replays them and every caller's Result{Allowed, Remaining, ResetAtMs} must be the model's (multisets per identifier, n and instant).",
-    level_note="One limiter object and one connection (requests reach the server in the order the client wrote them); calls are instantaneous in virtual time, so the client clock and the server clock agree. Allowed is not compared for n=0 (undocumented); a request at the very millisecond a window ends may be counted in either window (undocumented, the model follows the limiter). A Check that is the first request after a window ended opens a window, so the metamorphic comparison is made only when no Check did. Per-call WithCustomRateLimit options are not exercised. " + LIMITS,
+    level_note="One limiter object and one connection (requests reach the server in the order the client wrote them); calls are instantaneous in virtual time, so the client clock and the server clock agree. Allowed is not compared for n=0 (undocumented); a request at the very millisecond a window ends may be counted in either window (undocumented, the model follows the limiter). A Check that is the first request after a window ended opens a window, so the metamorphic comparison is made only when no Check did. Per-call WithCustomRateLimit options (limit and window different from the default in both directions) are exercised; a window lasts the window of the call that opens it and each call is judged against its own limit. " + LIMITS,
     units=[U("harness", "props", "TestVerif_C38_Limiter", T(800, timeout=300), T(3000, shards=16, timeout=1500))],
 )
 
